@@ -8,7 +8,7 @@ import torch
 from hypothesis import strategies as st
 
 from vf import gen, refmodel as R
-from vf.common import Sub, require, expect_raises
+from vf.common import Sub, require, expect_raises, PropertyViolation
 
 PROPERTY = "C19"
 RULE = ("(index) enumeration: for n 1..10 EVERY row k of generate_hilbert_space(n) is compared with subspace_vector(k, n), my own "
@@ -184,11 +184,25 @@ def f32_close(got, want64):
     return np.all(np.abs(np.asarray(got, dtype=np.float64) - want32) <= ulp)
 
 
-def check_files(c):
+def _second_load(c2, tmp):
+    try:
+        check_files(c2, tmp)
+    except PropertyViolation as v:
+        raise PropertyViolation("after-rewrite:" + v.bucket, "after the files were rewritten at the same paths and loaded again: " + v.message, v.detail)
+
+
+class _Keep:
+    """context manager handing out an existing directory (second pass re-uses the first pass's paths)"""
+    def __init__(self, d): self.d = d
+    def __enter__(self): return self.d
+    def __exit__(self, *a): return False
+
+
+def check_files(c, reuse_dir=None):
     from qucumber.utils import data as D_
     N, n = c["N"], c["n"]
     rows = [expansion(k, n) for k in c["samples"]]
-    with tempfile.TemporaryDirectory(prefix="vf_c19_") as tmp:
+    with (_Keep(reuse_dir) if reuse_dir else tempfile.TemporaryDirectory(prefix="vf_c19_")) as tmp:
         P = lambda name: os.path.join(tmp, name)
         with open(P("samples.txt"), "w") as f:
             for r in rows:
@@ -246,6 +260,14 @@ def check_files(c):
         else:
             kw = {"tr_mtx_real_path": P("mat_re.txt")} if which == "dm_missing_imag" else {"tr_mtx_imag_path": P("mat_im.txt")}
             expect_raises(ValueError, lambda: D_.load_data_DM(P("samples.txt"), **kw), "load:half-matrix-accepted", "load_data_DM with only one of the two matrix files")
+        if which in ("samples_only", "psi", "dm") and not c.get("_second"):
+            # history: the data set is regenerated AT THE SAME PATHS (different content) and loaded again in the same process
+            c2 = dict(c, _second=True, bases=list(reversed(c["bases"]))[: max(2, N - 1)] if N > 2 else list(reversed(c["bases"])),
+                      samples=[(k * 7 + 3) % (2 ** n) for k in c["samples"]][: max(2, N - 1)] if N > 2 else [(k + 1) % (2 ** n) for k in c["samples"]],
+                      psi={"re": list(reversed(c["psi"]["im"])), "im": list(reversed(c["psi"]["re"]))},
+                      mat={"re": list(reversed(c["mat"]["im"])), "im": list(reversed(c["mat"]["re"]))})
+            c2["N"] = len(c2["samples"])
+            _second_load(c2, tmp)
         samples_t = torch.tensor(parsed_samples, dtype=torch.double)
         barr = np.array(parsed_bases)
         keep = samples_t.clone()
